@@ -18,8 +18,8 @@ PROP = dict(
                "of the matching retained messages reach the subscriber when some are not deliverable (ACL read denial, full "
                "in-flight window, packet ids exhausted) — C02_delivered_every_order and engine topics_retsub; retained "
                "messages held back by the client's Receive Maximum (send quota 0) are not exercised.",
-    engines=[dict(hx="topics_ret", model="topics"), dict(hx="topics_retsub")],
-    theorems=["C02_refines", "C02_exactly", "C02_once", "C02_delivered_every_order"],
+    engines=[dict(hx="topics_ret", model="topics"), dict(hx="topics_retsub"), dict(hx="topics_retainsched")],
+    theorems=["C02_refines", "C02_exactly", "C02_once", "C02_delivered_every_order", "C02_after_any_schedule"],
     model_files="coq/Topics/Trie.v (model), coq/Topics/Match.v + IndexSpec.v (specification), coq/Topics/RetSub.v "
                 "(delivery loop of publishRetainedToClient + its specification)",
     rule="exhaustive: every single retained topic of <= 3 levels (thorough 4) over {a,b,\"\",$x,$SYS}, every set of 2 and 3 "
@@ -35,7 +35,12 @@ PROP = dict(
          "publishes already in flight to the subscriber.  The PUBLISH packets after SUBACK must satisfy RetSub.retsub_okb: "
          "each matching, readable retained message at most once at QoS min(message, subscription, 2) with the retain flag, "
          "every readable QoS 0 one present, exactly min(readable QoS>0 ones, free window slots) QoS>0 ones — for every scan "
-         "order (the broker's map iteration order is unknown to the checker).  Classes: plain / acl / window / acl+window",
+         "order (the broker's map iteration order is unknown to the checker).  Classes: plain / acl / window / acl+window.  "
+         "ADDED (concurrency, engine topics_retainsched, 900 / 15000 forced schedules, shared with C05): a retained publish "
+         "parked at the schedule point retain.store between set(...) and the store while 1-2 goroutines unsubscribe / clear / "
+         "subscribe on the same branch; after quiescence Messages(f) for the exact filter and every wildcard filter selecting "
+         "the topic must be exactly the retained messages whose topic matches f under SOME serial order of the concurrent "
+         "operations consistent with per-goroutine order (Topics.RetainConc.retain_engine)",
     exhaustive=False,
     modelled="topics.go: TopicsIndex.RetainMessage, Messages, scanMessages, set, trim, isolateParticle; packets.Packets",
     assumptions=["operations on the index are applied one at a time (concurrency is C31)",
